@@ -17,6 +17,9 @@ SPEC = {
  "C15": dict(pkg="astria-sequencer", n="roughly 518", about="`crates/astria-sequencer/src/app/vote_extension.rs` (validation of extended commit info, voting-power threshold, price aggregation) and `crates/astria-core/src/oracles/price_feed/utils.rs`",
    specific="a particular voting-power distribution (exactly two thirds, one dominant validator), a particular subset of signers, absent/nil votes, duplicated validators, negative or extreme prices, an even number of reporters",
    drive="The tests at the bottom of `src/app/vote_extension.rs` show how to build signed vote extensions and extended commit infos."),
+ "C17": dict(pkg="astria-core", n="about 84 lib tests (use `cargo test -p astria-core --lib --offline --features test-utils` if a plain run complains about missing features)", about="the checked constructors in `crates/astria-core/src/sequencerblock/v1/block/mod.rs` (`SequencerBlock`, `FilteredSequencerBlock`, `RollupTransactions`, `ExtendedCommitInfoWithProof`, `RollupData`, `Deposit`), `crates/astria-core/src/sequencerblock/v1/celestia.rs` (`SubmittedMetadata`, `SubmittedRollupData`), `crates/astria-core/src/sequencerblock/v1/mod.rs` (the proof helpers) and `crates/astria-core/src/protocol/transaction/v1/mod.rs` (`Transaction::try_from_raw`)",
+   specific="a particular malformed-but-decodable message: one field missing or of the wrong length, a proof that belongs to another leaf or tree, a duplicated or reordered repeated element, an inconsistent pair of fields (ids list vs data, header root vs data), an index / size at a boundary",
+   drive="`astria_core::protocol::test_utils::ConfigureSequencerBlock` builds valid blocks; `into_raw()` / `try_from_raw()` convert to and from the protobuf types in `astria_core::generated`; the tests at the bottom of `block/mod.rs` and `celestia.rs` show usage. The demonstration should take a valid raw message, alter it, and show that `try_from_raw` now accepts something whose signature or Merkle proofs do not verify (or panics), while the original code rejects it."),
  "C18": dict(pkg="astria-sequencer", n="roughly 518", about="`crates/astria-sequencer/src/ibc/ics20_transfer.rs`, `src/ibc/state_ext.rs`, `src/checked_actions/ics20_withdrawal.rs`",
    specific="a particular denomination form (trace vs ibc/ hash, multi-hop prefixes), a second channel, a refund (error ack / timeout) after a particular outgoing transfer, an incoming packet to a bridge account with a particular memo or asset, amounts at the escrow boundary",
    drive="The tests at the bottom of `src/ibc/ics20_transfer.rs` show how to drive `receive_tokens`/`refund_tokens`/the `AppHandler` functions on a `StateDelta`; `crate::test_utils` has `Fixture`, keys and `nria()`."),
